@@ -54,7 +54,9 @@ func (b *Base85Encoder) Decode(data []byte) ([]byte, error) {
 		}
 	}
 
-	dst := make([]byte, len(source))
+	// ascii85.Decode stops silently unless 4 bytes of room are left before every input
+	// character, and a single 'z' expands to 4 bytes
+	dst := make([]byte, 4*len(source))
 	ndst, _, err := ascii85.Decode(dst, source, true)
 	if err != nil {
 		err = errors.WithStack(err)
